@@ -73,6 +73,11 @@ pub(crate) struct MemTable {
 	/// WAL number that was current when this memtable started receiving writes.
 	/// Used to determine which WALs can be safely deleted after flush.
 	wal_number: AtomicU64,
+	/// Oldest WAL segment that holds the record of a batch applied to this
+	/// memtable (u64::MAX if none is known). Can be older than `wal_number`:
+	/// a batch is appended to the WAL under the commit lock but applied
+	/// outside it, so a rotation can slip in between.
+	oldest_batch_wal: AtomicU64,
 }
 
 impl Default for MemTable {
@@ -90,6 +95,7 @@ impl MemTable {
 			skiplist,
 			latest_seq_num: AtomicU64::new(0),
 			wal_number: AtomicU64::new(0),
+			oldest_batch_wal: AtomicU64::new(u64::MAX),
 		}
 	}
 
@@ -171,7 +177,17 @@ impl MemTable {
 	/// * `batch` - The batch of operations to apply
 	/// * `starting_seq_num` - The starting sequence number for this batch (records get consecutive
 	///   numbers)
+	/// Oldest WAL segment holding a batch that lives in this memtable.
+	pub(crate) fn oldest_batch_wal(&self) -> u64 {
+		self.oldest_batch_wal.load(Ordering::Acquire)
+	}
+
 	pub(crate) fn add(&self, batch: &Batch) -> Result<()> {
+		if batch.wal_number != u64::MAX {
+			// Before the first entry goes in: from now on this memtable may hold
+			// data whose only durable copy is in that segment.
+			self.oldest_batch_wal.fetch_min(batch.wal_number, Ordering::AcqRel);
+		}
 		let highest_seq_num = self.apply_batch_to_memtable(batch)?;
 		self.update_latest_sequence_number(highest_seq_num);
 		Ok(())
